@@ -65,9 +65,22 @@ def unb(lst):
 # part a: log -> tracing
 
 TARGETS_A = ["app", "app::db", "log", "ignored", "ign", "ig", "hyper::client", "", "αβγ::δ", "app ", "LOG", "logx", "xlog",
-             "a{}b", "tracing::span", "my-crate", "db"]
+             "a{}b", "tracing::span", "my-crate", "db", "App", "apple", "ap", "hyper", "hyperx", "αβ", "α"]
 IGNORES = [[], [], [], ["ign"], ["hyper", "app::"], ["log"], [""], ["db"], ["pp", "client"], ["og"], ["αβ"], ["app::db"],
-           ["ignored::more"], ["x"], ["app", "log", "ign"]]
+           ["ignored::more"], ["x"], ["app", "log", "ign"], ["app"], ["App"], ["hyper::client::conn"], ["αβγ"], ["lo", "xl"],
+           ["my-crate", "my_crate"], ["ignored", "ignored"], [" app"], ["app "]]
+INITS = ["builder", "builder", "builder", "all", "default", "init", "filter", "new"]
+
+
+def effective_logmax(c):
+    """log::max_level() after the logger is installed the way the configuration says"""
+    return 5 if c.get("init", "builder") in ("default", "init") else c["logmax"]
+
+
+def near(rng, p):
+    """targets around an ignore-list entry: itself, extensions, proper prefixes, case changes, embeddings"""
+    return rng.choice([p, p + "::sub", "pre" + p, p[:-1] if p else p, p + p, p + " ", " " + p, p.upper(), p.capitalize(),
+                       p + "x", "x" + p, p[1:] if p else p, p[:max(1, len(p) // 2)], p.replace("::", ":")])
 MESSAGES = ["hello", "", "héllo wörld ✓", "{}", "{x} {{}} }{", "line1\nline2", "quote\"s and \\ back", "a=1 b=2", "\t tab",
             "log.target=evil", "日本語のメッセージ", "%s %d", "x" * 200, "emoji 🦀", "nul\u0000byte", " leading and trailing "]
 FILES = [None, "src/main.rs", "", "/abs/päth/lib.rs", "C:\\win\\x.rs"]
@@ -101,34 +114,51 @@ def gen_cfg_a(rng, idx, n_rec):
         rules = [(t, min(m, hint)) for t, m in rules]
     dangling = rng.choice([None, None, None, None, -1, 5, 3, 1])
     logmax = rng.choice([5, 5, 5, 5, 4, 3, 2, 1, 0])
-    ignore = list(rng.choice(IGNORES))
+    init = rng.choice(INITS)
+    ignore = list(rng.choice(IGNORES)) if init in ("builder", "all", "default") else []
+
+    def pick_target():
+        target = rng.choice(tp) if rng.random() < 0.9 else rand_text(rng, 0, 10)
+        if ignore and rng.random() < 0.3:
+            target = near(rng, rng.choice(ignore))
+        return target
     items = []
     for _ in range(n_rec):
-        if rng.random() < 0.06:
+        r = rng.random()
+        if r < 0.06:
             items.append({"k": "foreign", "level": rng.randint(1, 5), "target": rng.choice(tp)})
             continue
+        if r < 0.14:
+            items.append({"k": "enq", "level": rng.randint(1, 5), "target": pick_target()})
+            continue
+        if r < 0.17:
+            items.append({"k": rng.choice(["cvm", "cvl"]), "level": rng.randint(1, 5), "target": pick_target()})
+            continue
+        if r < 0.19:
+            items.append({"k": "cvr", "level": rng.randint(1, 5), "target": pick_target(),
+                          "file": rng.choice(FILES), "line": rng.choice(LINES), "module": rng.choice(MODULES)})
+            continue
         entry = rng.choice("DDDDDDMMFF")
-        target = rng.choice(tp) if rng.random() < 0.9 else rand_text(rng, 0, 10)
-        if ignore and rng.random() < 0.25:
-            p = rng.choice(ignore)
-            target = rng.choice([p, p + "::sub", "pre" + p, p[:-1] if p else p, p + p])
         msg = rng.choice(MESSAGES) if rng.random() < 0.7 else rand_text(rng, 0, 30)
-        items.append({"k": "rec", "entry": entry, "level": rng.randint(1, 5), "target": target, "msg": msg,
+        items.append({"k": "rec", "entry": entry, "level": rng.randint(1, 5), "target": pick_target(), "msg": msg,
                       "file": rng.choice(FILES), "line": rng.choice(LINES), "module": rng.choice(MODULES)})
-    return {"part": "a", "id": "a%03d" % idx, "logmax": logmax, "ignore": ignore, "mode": mode, "hint": hint, "dflt": dflt,
+    return {"part": "a", "id": "a%03d" % idx, "logmax": logmax, "init": init, "ignore": ignore, "mode": mode, "hint": hint, "dflt": dflt,
             "rules": rules, "dangling": dangling, "items": items}
 
 
 def case_text_a(c):
-    L = ["# C18 part a (log -> tracing) %s" % c["id"], "logmax %d" % c["logmax"]]
+    L = ["# C18 part a (log -> tracing) %s" % c["id"], "logmax %d" % c["logmax"], "init %s" % c.get("init", "builder")]
     for i in c["ignore"]:
         L.append("ignore " + x(i))
     L.append("collector %s %d %d %s" % (c["mode"], c["hint"], c["dflt"], " ".join("%s=%d" % (x(t), m) for t, m in c["rules"])))
     if c["dangling"] is not None:
         L.append("dangling %d" % c["dangling"])
     for it in c["items"]:
-        if it["k"] == "foreign":
-            L.append("foreign %d %s" % (it["level"], x(it["target"])))
+        if it["k"] in ("foreign", "enq", "cvm", "cvl"):
+            L.append("%s %d %s" % (it["k"], it["level"], x(it["target"])))
+        elif it["k"] == "cvr":
+            L.append("cvr %d %s %s %s %s" % (it["level"], x(it["target"]), "-" if it["file"] is None else x(it["file"]),
+                                            "-" if it["line"] is None else str(it["line"]), "-" if it["module"] is None else x(it["module"])))
         else:
             L.append("rec %s %d %s %s %s %s %s" % (it["entry"], it["level"], x(it["target"]), x(it["msg"]),
                                                    "-" if it["file"] is None else x(it["file"]),
@@ -138,7 +168,7 @@ def case_text_a(c):
 
 
 def parse_case_a(text, cid):
-    c = {"part": "a", "id": cid, "logmax": 5, "ignore": [], "mode": "none", "hint": -1, "dflt": 5, "rules": [], "dangling": None, "items": []}
+    c = {"part": "a", "id": cid, "logmax": 5, "init": "builder", "ignore": [], "mode": "none", "hint": -1, "dflt": 5, "rules": [], "dangling": None, "items": []}
 
     def ux(s):
         return bytes.fromhex(s[1:]).decode("utf-8")
@@ -148,6 +178,8 @@ def parse_case_a(text, cid):
             continue
         if t[0] == "logmax":
             c["logmax"] = int(t[1])
+        elif t[0] == "init":
+            c["init"] = t[1]
         elif t[0] == "ignore":
             c["ignore"].append(ux(t[1]))
         elif t[0] == "collector":
@@ -155,8 +187,11 @@ def parse_case_a(text, cid):
             c["rules"] = [(ux(r.split("=")[0]), int(r.split("=")[1])) for r in t[4:]]
         elif t[0] == "dangling":
             c["dangling"] = int(t[1])
-        elif t[0] == "foreign":
-            c["items"].append({"k": "foreign", "level": int(t[1]), "target": ux(t[2])})
+        elif t[0] in ("foreign", "enq", "cvm", "cvl"):
+            c["items"].append({"k": t[0], "level": int(t[1]), "target": ux(t[2])})
+        elif t[0] == "cvr":
+            c["items"].append({"k": "cvr", "level": int(t[1]), "target": ux(t[2]), "file": None if t[3] == "-" else ux(t[3]),
+                               "line": None if t[4] == "-" else int(t[4]), "module": None if t[5] == "-" else ux(t[5])})
         elif t[0] == "rec":
             c["items"].append({"k": "rec", "entry": t[1], "level": int(t[2]), "target": ux(t[3]), "msg": ux(t[4]),
                                "file": None if t[5] == "-" else ux(t[5]), "line": None if t[6] == "-" else int(t[6]),
@@ -226,22 +261,45 @@ def model_terms_a(c, impl):
     cur = predicted_current(c)
     filt = "(fun _ _ => false)" if c["mode"] == "none" else "(table_filter %s %s)" % (crules(c["rules"]), colv(c["dflt"]))
     st = "(mkB %s [%s] %s)" % (colv(cur), "; ".join(cb(i) for i in c["ignore"]), filt)
+    # log::max_level(): through the model of the builder where the builder sets it
+    init = c.get("init", "builder")
+    if init == "new":
+        mx = colv(c["logmax"])
+    else:
+        w = "None" if init in ("default", "init") else "(Some %s)" % colv(c["logmax"])
+        mx = "(match builder_log_max %s with Some f => f | None => None end)" % w
     recs, foreign = [], []
+    enq, cvm, cvr, cvl = [], [], [], []
     for i, it in enumerate(c["items"]):
         if it["k"] == "foreign":
             foreign.append((i, "(mkEvent %s %s %s \"HARNESS_CS\" [(mkField \"HARNESS_CS\" 0, Some (VArgs %s)); (mkField \"HARNESS_CS\" 1, Some (VStr %s))])" % (
                 cb("log event"), cb("log"), LV[it["level"] - 1], cb("not a log record"), cb(it["target"]))))
             continue
+        if it["k"] in ("enq", "cvm"):
+            (enq if it["k"] == "enq" else cvm).append((i, "(mkRec %s %s [] None None None)" % (LV[it["level"] - 1], cb(it["target"]))))
+            continue
+        if it["k"] == "cvr":
+            cvr.append((i, "(mkRec %s %s [] %s %s %s)" % (LV[it["level"] - 1], cb(it["target"]), cobytes(it["file"]), coN(it["line"]), cobytes(it["module"]))))
+            continue
+        if it["k"] == "cvl":
+            cvl.append((i, "(mkMeta [] %s %s None None None)" % (cb(it["target"]), LV[it["level"] - 1])))
+            continue
         f, l, m = it["file"], it["line"], it["module"]
         if it["entry"] == "M":
             f, m = impl["file"], impl["module"]
             l = impl["items"][i].get("macro_line")
-        en = {"D": "EDirect", "M": "(EMacro %s)" % colv(c["logmax"]), "F": "EFormatTrace"}[it["entry"]]
+        en = {"D": "EDirect", "M": "(EMacro %s)" % mx, "F": "EFormatTrace"}[it["entry"]]
         recs.append((i, "(%s, mkRec %s %s %s %s %s %s)" % (en, LV[it["level"] - 1], cb(it["target"]), cb(it["msg"]), cobytes(f), coN(l), cobytes(m))))
     terms = [(c["id"] + ":recs", "map (fun p => enc_bridge (bridge %s (fst p) (snd p))) [%s]" % (st, "; ".join(t for _, t in recs)))]
     if foreign:
         terms.append((c["id"] + ":foreign", "map enc_event [%s]" % "; ".join(t for _, t in foreign)))
-    return terms, [i for i, _ in recs], [i for i, _ in foreign]
+    if enq or cvm or cvr or cvl:
+        terms.append((c["id"] + ":entries", "(map (fun r => enc_enabled (tracer_enabled %s r)) [%s], map (fun r => enc_as_trace (as_trace_meta gen_as_trace_metadata r)) [%s], "
+                      "map (fun r => enc_as_trace (as_trace_meta gen_as_trace_record r)) [%s], map (fun m => enc_as_log (as_log_meta m)) [%s])" % (
+                          st, "; ".join(t for _, t in enq), "; ".join(t for _, t in cvm), "; ".join(t for _, t in cvr), "; ".join(t for _, t in cvl))))
+    terms.append((c["id"] + ":logmax", "option_map (fun f => rank (VF f)) (%s)" % (
+        "Some %s" % colv(c["logmax"]) if init == "new" else "builder_log_max %s" % ("None" if init in ("default", "init") else "(Some %s)" % colv(c["logmax"])))))
+    return terms, [i for i, _ in recs], [i for i, _ in foreign], {"enq": [i for i, _ in enq], "cvm": [i for i, _ in cvm], "cvr": [i for i, _ in cvr], "cvl": [i for i, _ in cvl]}
 
 
 def oracle_a(rep, c, impl, text):
@@ -263,13 +321,44 @@ def oracle_a(rep, c, impl, text):
                 if len(evs) != 1 or evs[0][6] is not False or evs[0][7] is not None:
                     rep.violation("an event that is not a log record is labelled as one (is_log / normalized_metadata)", case)
             continue
+        if it["k"] in ("cvm", "cvr"):
+            rep.count("a:" + it["k"])
+            cv = o.get("conv")
+            want = (it["target"], it["level"]) + ((it["file"], it["line"], it["module"]) if it["k"] == "cvr" else (None, None, None))
+            got = None if cv is None else (hexs(cv["target"]), cv["level"], hexs(cv["file"]), cv["line"], hexs(cv["module"]))
+            if got != want or obs:
+                rep.violation("as_trace of a log::%s mislabels it: (target, level, file, line, module) = %r, expected %r" % (
+                    "Metadata" if it["k"] == "cvm" else "Record", got, want), case)
+            continue
+        if it["k"] == "cvl":
+            rep.count("a:cvl")
+            al = o.get("aslog")
+            if al is None or (al[0], hexs(al[1])) != (it["level"], it["target"]) or obs:
+                rep.violation("as_log of a tracing Metadata mislabels it: %r, expected (%d, %r)" % (al, it["level"], it["target"]), case)
+            continue
+        if it["k"] == "enq":
+            rep.count("a:enq")
+            acc = c["mode"] != "none" and table(c["rules"], c["dflt"], it["target"], it["level"])
+            ign = any(it["target"].startswith(p) for p in c["ignore"])
+            gat = it["level"] > cur
+            if acc != (c["mode"] != "none" and table(c["rules"], c["dflt"], "log", it["level"])) and not ign and not gat:
+                rep.nontrivial.add(("a", "enq", it["level"], it["target"], acc, tuple(sorted(c["rules"])), c["dflt"]))
+            if evs:
+                rep.violation("Log::enabled produced an event", case)
+            elif o.get("ans") and (not acc or ign):
+                rep.violation("Log::enabled answers true for (level %s, target %r) although the current collector %s" % (
+                    LVU[it["level"]], it["target"], "rejects that level and target" if not acc else "accepts it but the target has an ignored prefix"), case)
+            elif acc and not ign and not gat and not o.get("ans"):
+                rep.violation("Log::enabled answers false for (level %s, target %r) although the current collector accepts that level and target" % (
+                    LVU[it["level"]], it["target"]), case)
+            continue
         rep.count("a:entry-" + it["entry"])
         rep.count("a:level-%s" % LVU[it["level"]])
         rep.count("a:loc-%d%d%d" % (it["file"] is not None, it["line"] is not None, it["module"] is not None))
         accepts = c["mode"] != "none" and table(c["rules"], c["dflt"], it["target"], it["level"])
         accepts_log = c["mode"] != "none" and table(c["rules"], c["dflt"], "log", it["level"])
         ignored = it["entry"] != "F" and any(it["target"].startswith(p) for p in c["ignore"])
-        gated = (it["entry"] != "F" and it["level"] > cur) or (it["entry"] == "M" and it["level"] > c["logmax"])
+        gated = (it["entry"] != "F" and it["level"] > cur) or (it["entry"] == "M" and it["level"] > effective_logmax(c))
         rep.count("a:" + ("accepted" if accepts else "rejected") + ("+ignored" if ignored else "") + ("+gated" if gated else ""))
         if accepts != accepts_log and not ignored and not gated:
             rep.nontrivial.add(("a", it["entry"], it["level"], it["target"], accepts, tuple(sorted(c["rules"])), c["dflt"]))
@@ -314,7 +403,8 @@ def run_case_a(path, binp):
             continue
         o = json.loads(line)
         if o["k"] == "cfg":
-            res.update(current=o["current"], log_max=o["log_max"], file=hexs(o["file"]), module=hexs(o["module"]))
+            res.update(current=o["current"], log_max=o["log_max"], file=hexs(o["file"]), module=hexs(o["module"]),
+                       conv=(o.get("lv_as_trace"), o.get("lv_as_log"), o.get("f_as_trace"), o.get("f_as_log")))
         elif o["k"] == "item":
             res["items"][o["i"]] = o
         elif o["k"] == "end":
@@ -386,6 +476,10 @@ def gen_case_b(rng, idx, n_ops, malformed=False):
     dangling_at = rng.choice([None, None, None, rng.randint(0, n_ops // 2)])
     uninstall_after = rng.choice([None, rng.randint(1, 8)])
     mode = rng.choice(["scoped", "scoped", "global"])
+    # who installs: the main thread, a worker thread (the main thread then never has a default of its own), or a worker
+    # stopped inside set_global_default while the main thread emits an event
+    who = rng.choice(["main", "main", "worker", "worker", "gmid", "gmid"])
+    wk = rng.randint(1, 3)
     slots = {}
     slot_cs = {}
     installed_at = None
@@ -398,12 +492,18 @@ def gen_case_b(rng, idx, n_ops, malformed=False):
             dangling_at = None
             continue
         if install_at is not None and pos >= install_at:
-            ops.append(("install", mode))
+            if who == "main":
+                ops.append(("install", mode))
+            elif who == "worker":
+                ops.append(("w", wk, ("install", mode)))
+            else:
+                ops.append(("gmid", wk, rng.choice([70, 71, 72]), rng.randrange(len(EVENT_CS)), gen_vals(rng)))
+                mode = "global"
             installed_at = pos
             install_at = None
             continue
         if installed_at is not None and uninstall_after is not None and mode == "scoped" and pos >= installed_at + uninstall_after:
-            ops.append(("uninstall",))
+            ops.append(("uninstall",) if who == "main" else ("w", wk, ("uninstall",)))
             uninstall_after = None
             if rng.random() < 0.3:
                 install_at = pos + rng.randint(1, 5)   # a second scoped install later
@@ -412,6 +512,25 @@ def gen_case_b(rng, idx, n_ops, malformed=False):
         free = [s for s in range(8) if s not in slots]
         idle = [s for s, st in slots.items() if st == "idle"]
         ent = [s for s, st in slots.items() if st == "entered"]
+        if r > 0.86 and rng.random() < 0.6:
+            # other threads, follows_from, bare observations
+            z = rng.random()
+            if z < 0.55:
+                ops.append(("w", rng.randint(1, 3), ("ev", rng.randrange(len(EVENT_CS)), gen_vals(rng))))
+            elif z < 0.7:
+                ops.append(("w", rng.randint(1, 3), ("hbs",)))
+            elif z < 0.8:
+                ops.append(("hbs",))
+            elif z < 0.95 and slots:
+                live = sorted(slots)
+                ops.append(("fol", rng.choice(live), rng.choice(live + [None])))
+            elif malformed:
+                ops.append(rng.choice([("w", rng.randint(1, 3), ("uninstall",)), ("w", rng.randint(1, 3), ("install", rng.choice(["scoped", "global"]))),
+                                       ("gmid", rng.randint(1, 3), rng.choice([70, 71, 72]), rng.randrange(len(EVENT_CS)), gen_vals(rng)),
+                                       ("fol", rng.randint(0, 7), None)]))
+            else:
+                ops.append(("hbs",))
+            continue
         if malformed and r < 0.2:
             kind = rng.choice(["en", "ex", "dr", "rec", "none", "uninstall", "install"])
             s = rng.randint(0, 7)
@@ -468,9 +587,23 @@ def case_text_b(c):
     L = ["# C18 part b (tracing -> log) %s" % c["id"], "logmax %d" % c["logmax"],
          "logger %d %s" % (c["logger"][0], " ".join("%s=%d" % (x(t), m) for t, m in c["logger"][1])),
          "collector %d %d %s" % (c["coll"][0], c["coll"][1], " ".join("%s=%d" % (x(t), m) for t, m in c["coll"][2]))]
+    def one(o):
+        if o[0] in ("dangling", "uninstall", "hbs"):
+            return o[0]
+        if o[0] == "install":
+            return "install " + o[1]
+        if o[0] == "ev":
+            return "ev %d %s" % (o[1], vals_text(o[2]))
+        raise ValueError(o)
     for o in c["ops"]:
-        if o[0] in ("dangling", "uninstall"):
+        if o[0] in ("dangling", "uninstall", "hbs"):
             L.append(o[0])
+        elif o[0] == "w":
+            L.append("@%d %s" % (o[1], one(o[2])))
+        elif o[0] == "gmid":
+            L.append("gmid %d %d ev %d %s" % (o[1], o[2], o[3], vals_text(o[4])))
+        elif o[0] == "fol":
+            L.append("fol %d %s" % (o[1], "-" if o[2] is None else str(o[2])))
         elif o[0] == "install":
             L.append("install " + o[1])
         elif o[0] == "ev":
@@ -509,7 +642,15 @@ def parse_case_b(text, cid):
             c["logger"] = (int(t[1]), rules(t[2:]))
         elif t[0] == "collector":
             c["coll"] = (int(t[1]), int(t[2]), rules(t[3:]))
-        elif t[0] in ("dangling", "uninstall"):
+        elif t[0].startswith("@"):
+            u = t[1:]
+            inner = ("install", u[1]) if u[0] == "install" else (("ev", int(u[1]), vals(u[2:])) if u[0] == "ev" else (u[0],))
+            c["ops"].append(("w", int(t[0][1:]), inner))
+        elif t[0] == "gmid":
+            c["ops"].append(("gmid", int(t[1]), int(t[2]), int(t[4]), vals(t[5:])))
+        elif t[0] == "fol":
+            c["ops"].append(("fol", int(t[1]), None if t[2] == "-" else int(t[2])))
+        elif t[0] in ("dangling", "uninstall", "hbs"):
             c["ops"].append((t[0],))
         elif t[0] == "install":
             c["ops"].append(("install", t[1]))
@@ -599,64 +740,121 @@ def canon_rec(r):
     return (r["level"], hexs(r["target"]), hexs(r["text"]), hexs(r["file"]), None if r["line"] is None else 0, hexs(r["module"]))
 
 
+N_STEPS = 6   # MStep's issued per call: at least the longest generated action list (extra steps of an idle thread are no-ops)
+GMID_STEPS = {70: 0, 71: 1, 72: 2}   # actions of set_global_default performed before the yield point
+
+
+def block(t, f):
+    return ["(MCall %d %s)" % (t, f)] + ["(MStep %d)" % t] * N_STEPS
+
+
 def process_case_b(rep, c, impl, text, always, disagree, table_bad):
-    """Walk the history once: build the model ops, evaluate the oracle on the implementation's records."""
+    """Walk the history once: build the machine ops of the model (thread 0 = main, 1..3 = workers), evaluate the oracle on
+    the implementation's records.  Returns (mops, ranges): Coq terms, and per op index (start, end, position of the MLog
+    whose flag is `exists_mid` or None)."""
     module, file_ = impl["module"], impl["file"]
     slots = {}
-    model_ops = []     # (op index or None, coq term)
-    exists_seen = False
-    guard, global_set = False, False
+    mops = []
+    ranges = {}
+    guard = {0: False, 1: False, 2: False, 3: False}
+    global_set = False
     phase = "before"
-    prev_exists = impl["hdr_exists"]
-    spec_exists = False                # whether a collector has ever been installed, by the history itself
-    if prev_exists:
+    spec_exists = False                # whether a collector has ever been installed (on any thread), by the history itself
+    installer = None                   # the thread that installed first
+    if impl["hdr_exists"]:
         rep.violation("has_been_set() is true before anything was installed", {"part": "b", "case_id": c["id"], "case_file": text})
+
+    def add(i, terms, mid=None):
+        a = len(mops)
+        mops.extend(terms)
+        ranges[i] = (a, len(mops), None if mid is None else a + mid)
+
+    def event_step(cs, vals, r):
+        lvl, tgt, fields = EVENT_CS[cs]
+        tgt = module if tgt is None else tgt
+        fl = render_fields(fields, vals, hexs(r["ds"]))
+        fl = [(n, (fv[0], fv[1], rust_debug_str(fv[1])) if (fv[0] == "str" and fv[2] is None) else fv) for n, fv in fl]
+        if rust_debug_str(vals["s"]) != hexs(r["ds"]):
+            table_bad.append({"case": c["id"], "std_debug": hexs(r["ds"]), "python_debug": rust_debug_str(vals["s"])})
+        meta = "(mkMeta %s %s %s %s (Some 0) %s)" % (cb("event"), cb(tgt), LV[lvl - 1], cobytes(file_), cobytes(module))
+        return ("(OpEvent %s %s)" % (meta, cvs(fl)),
+                (True, lvl, lvl, tgt, [z for z in (shown(n, fv, True) for n, fv in fl) if z is not None], None))
+
     for i, o in enumerate(c["ops"]):
         r = impl["ops"].get(i)
         case = {"part": "b", "always": always, "case_id": c["id"], "op_index": i, "op": list(o),
                 "logmax": c["logmax"], "logger": c["logger"], "collector": c["coll"], "case_file": text}
         if r is None:
             rep.violation("the harness produced no output for op %d (crash?)" % i, dict(case, raw=impl["raw"][-800:]))
-            return
+            return None
         case["observed"] = r
         rep.evaluations += 1
         if r["panic"]:
             rep.violation("op %s panicked" % o[0], case)
             continue
         recs = [canon_rec(z) for z in r["recs"]]
+        thread = 0
+        if o[0] == "w":
+            thread, o = o[1], o[2]
         kind = o[0]
         installed_before = spec_exists
         want_skip = False
-        step = None   # (in_event, level, target, must_contain[], sid)
+        window = False  # the op ran while another thread was inside set_global_default
+        step = None   # (in_event, level, gate level, target, must_contain[], sid)
         if kind == "dangling":
             phase = phase if phase != "before" else "dangling"
+        elif kind == "hbs":
+            pass
         elif kind == "install":
-            if (o[1] == "scoped" and guard) or (o[1] == "global" and global_set):
+            if (o[1] == "scoped" and guard[thread]) or (o[1] == "global" and global_set):
                 want_skip = True
             else:
-                model_ops.append((i, "OpInstall"))
+                add(i, block(thread, "FSetDefault" if o[1] == "scoped" else "FSetGlobal"))
                 spec_exists = True
-                guard = guard or o[1] == "scoped"
+                installer = thread if installer is None else installer
+                guard[thread] = guard[thread] or o[1] == "scoped"
                 global_set = global_set or o[1] == "global"
                 phase = "installed"
         elif kind == "uninstall":
-            if not guard:
+            if not guard[thread]:
                 want_skip = True
             else:
-                guard = False
-                model_ops.append((i, "OpUninstall"))
-                phase = "uninstalled" if not global_set else "installed"
+                guard[thread] = False
+                add(i, block(thread, "FGuardDrop"))
+                phase = "uninstalled" if not (global_set or any(guard.values())) else "installed"
+        elif kind == "gmid":
+            k, point = o[1], o[2]
+            term, step = event_step(o[3], o[4], r)
+            will_pause = point == 70 or not global_set
+            ok = not global_set
+            n = GMID_STEPS[point]
+            if will_pause:
+                add(i, ["(MCall %d FSetGlobal)" % k] + ["(MStep %d)" % k] * n + ["(MLog 0 %s)" % term] + ["(MStep %d)" % k] * N_STEPS, mid=1 + n)
+            else:
+                add(i, block(k, "FSetGlobal") + ["(MLog 0 %s)" % term], mid=1 + N_STEPS)
+            if r.get("paused") != will_pause or r.get("gl_ok") != ok:
+                table_bad.append({"case": c["id"], "op": i, "paused": r.get("paused"), "want_paused": will_pause, "gl_ok": r.get("gl_ok"), "want_ok": ok})
+            window = ok
+            if ok:
+                global_set = True
+                spec_exists = True
+                installer = k if installer is None else installer
+                phase = "installed"
+            rep.count("b:gmid-%d%s" % (point, "" if ok else "-already-set"))
         elif kind == "ev":
-            lvl, tgt, fields = EVENT_CS[o[1]]
-            tgt = module if tgt is None else tgt
-            fl = render_fields(fields, o[2], hexs(r["ds"]))
-            fl = [(n, (fv[0], fv[1], rust_debug_str(fv[1])) if (fv[0] == "str" and fv[2] is None) else fv) for n, fv in fl]
-            if rust_debug_str(o[2]["s"]) != hexs(r["ds"]):
-                table_bad.append({"case": c["id"], "op": i, "std_debug": hexs(r["ds"]), "python_debug": rust_debug_str(o[2]["s"])})
-            meta = "(mkMeta %s %s %s %s (Some 0) %s)" % (cb("event"), cb(tgt), LV[lvl - 1], cobytes(file_), cobytes(module))
-            model_ops.append((i, "(OpEvent %s %s)" % (meta, cvs(fl))))
-            step = (True, lvl, lvl, tgt, [z for z in (shown(n, fv, True) for n, fv in fl) if z is not None], None)
-            rep.count("b:ev")
+            term, step = event_step(o[1], o[2], r)
+            add(i, ["(MLog %d %s)" % (thread, term)])
+            rep.count("b:ev" + ("" if thread == 0 else "-worker"))
+        elif kind == "fol":
+            s = slots.get(o[1])
+            if s is None:
+                want_skip = True
+            else:
+                sp = "(mkSpan %s %s)" % ("None" if s["none"] else "(Some %s)" % s["meta"], coN(s["sid"]))
+                fr = slots.get(o[2]) if o[2] is not None else None
+                add(i, ["(MLog 0 (OpFollows %s %s))" % (sp, coN(fr["sid"] if fr else None))])
+                step = "silent"
+                rep.count("b:fol")
         elif kind == "sp":
             if o[1] in slots:
                 want_skip = True
@@ -669,7 +867,7 @@ def process_case_b(rep, c, impl, text, always, disagree, table_bad):
                 fl = render_fields(fields, o[3], hexs(r["ds"]))
                 sid = r.get("sid")
                 meta = "(mkMeta %s %s %s %s (Some 0) %s)" % (cb(name), cb(tgt), LV[lvl - 1], cobytes(file_), cobytes(module))
-                model_ops.append((i, "(OpNewSpan %s %s %s)" % (meta, cvs(fl), coN(sid))))
+                add(i, ["(MLog 0 (OpNewSpan %s %s %s))" % (meta, cvs(fl), coN(sid))])
                 slots[o[1]] = {"meta": meta, "sid": sid, "cs": o[2], "state": "idle", "none": False}
                 own = tgt if fields else "tracing::span"
                 must = [name + ";"] + [z for z in (shown(n, fv, False) for n, fv in fl) if z is not None]
@@ -692,7 +890,7 @@ def process_case_b(rep, c, impl, text, always, disagree, table_bad):
                     lvl, tgt, name, _ = SPAN_CS[s["cs"]]
                     tgt = module if tgt is None else tgt
                     fl = [(o[2], ("other", str(o[3]["i"])))]
-                    model_ops.append((i, "(OpRecord %s %s)" % (sp, cvs(fl))))
+                    add(i, ["(MLog 0 (OpRecord %s %s))" % (sp, cvs(fl))])
                     must = [name + ";", "%s=%d" % (o[2], o[3]["i"])] + ([" span=%d" % s["sid"]] if s["sid"] is not None else [])
                     step = (False, lvl, lvl, tgt, must, s["sid"])
                     rep.count("b:rec")
@@ -706,7 +904,7 @@ def process_case_b(rep, c, impl, text, always, disagree, table_bad):
                 want_skip = True
             else:
                 sp = "(mkSpan %s %s)" % ("None" if s["none"] else "(Some %s)" % s["meta"], coN(s["sid"]))
-                model_ops.append((i, "(%s %s)" % ({"en": "OpEnter", "ex": "OpExit", "dr": "OpDrop"}[kind], sp)))
+                add(i, ["(MLog 0 (%s %s))" % ({"en": "OpEnter", "ex": "OpExit", "dr": "OpDrop"}[kind], sp)])
                 if s["none"]:
                     step = "silent"
                     rep.count("b:%s-none" % kind)
@@ -722,11 +920,14 @@ def process_case_b(rep, c, impl, text, always, disagree, table_bad):
                     s["state"] = "idle"
                 else:
                     del slots[o[1]]
-        # --- has_been_set(): set by the first install, never reset (uninstalls included)
-        if r["exists"] != spec_exists:
-            rep.violation("has_been_set() = %s after op %s; a collector has %s been installed in this history" % (
-                r["exists"], o[0], "already" if spec_exists else "never"), case)
-        prev_exists = r["exists"]
+        # --- has_been_set(): set by the first install on ANY thread, never reset (uninstalls included), seen by every thread
+        for key in ("exists", "exists_t"):
+            if r.get(key) is not None and r[key] != spec_exists:
+                rep.violation("has_been_set() = %s on the %s thread after op %s%s; a collector has %s been installed in this history%s" % (
+                    r[key], "main" if key == "exists" else "executing", kind, "" if thread == 0 else " on worker %d" % thread,
+                    "already" if spec_exists else "never", "" if installer in (None, 0) else " (by worker %d)" % installer), case)
+        if installed_before and r.get("exists_mid") is False:
+            rep.violation("has_been_set() went back to false while another thread was inside set_global_default", case)
         if want_skip != r["skip"]:
             table_bad.append({"case": c["id"], "op": i, "skip": r["skip"], "want_skip": want_skip})
             continue
@@ -742,10 +943,13 @@ def process_case_b(rep, c, impl, text, always, disagree, table_bad):
             continue
         in_event, rec_lvl, gate_lvl, tgt, must, sid = step
         emitting = always or not installed_before
-        rep.nontrivial.add(("b", always, kind, o[1] if kind == "ev" else (o[2] if kind == "sp" else None), phase, sid is not None))
+        rep.nontrivial.add(("b", always, kind, o[1] if kind == "ev" else (o[2] if kind == "sp" else None), phase, sid is not None,
+                            thread, None if installer is None else (installer == thread)))
         if not emitting:
             if recs:
-                rep.violation("%s after a collector had been installed emitted %d log record(s) (feature `log` without `log-always`)" % (kind, len(recs)), case)
+                rep.violation("%s%s after a collector had been installed%s emitted %d log record(s) (feature `log` without `log-always`)" % (
+                    kind, "" if thread == 0 else " on worker %d" % thread,
+                    "" if installer in (None, thread) else " by another thread (%s)" % ("main" if installer == 0 else "worker %d" % installer), len(recs)), case)
             continue
         open_gates = gate_lvl <= c["logmax"] and table(c["logger"][1], c["logger"][0], tgt, rec_lvl)
         if not open_gates:
@@ -753,7 +957,16 @@ def process_case_b(rep, c, impl, text, always, disagree, table_bad):
             if len(recs) > 1:
                 rep.violation("%s emitted %d log records" % (kind, len(recs)), case)
             continue   # the property speaks about a logger that takes the record; the closed case is covered by the correspondence
-        if len(recs) != 1:
+        if window and not always:
+            # the event ran while another thread was inside set_global_default: neither "never installed" nor
+            # "installed"; at most one record, and if there is one it must be the right one
+            rep.count("b:window-%d" % len(recs))
+            if len(recs) > 1:
+                rep.violation("%s emitted %d log records" % (kind, len(recs)), case)
+                continue
+            if not recs:
+                continue
+        elif len(recs) != 1:
             rep.violation("%s %s emitted %d log record(s), expected exactly one" % (
                 kind, "with no collector ever installed" if not installed_before else "(log-always)", len(recs)), case)
             continue
@@ -766,7 +979,7 @@ def process_case_b(rep, c, impl, text, always, disagree, table_bad):
             if piece not in text_:
                 rep.violation("%s: log text %r does not contain %r" % (kind, text_, piece), case)
                 break
-    return model_ops
+    return mops, ranges, spec_exists
 
 
 def run_case_b(path, binp):
@@ -795,13 +1008,17 @@ def run(ctx):
     rep.rule = ("a) log->tracing: one process per (ignore list, builder max level, collector mode/hint/level-and-target table, optional "
                 "second dispatcher) configuration, ~30 records each (5 levels x target pool incl. ignored prefixes, non-prefix substrings, "
                 "\"log\", empty, Unicode x message pool incl. braces/Unicode/newlines x file/line/module present or absent x entry "
-                "Log::log / log! / format_trace) plus events on a look-alike foreign callsite. non-trivial = a record whose own "
+                "Log::log / log! / format_trace) plus events on a look-alike foreign callsite, Log::enabled queries, as_trace / as_log of "
+                "metadata and records, six ways of installing the logger (builder with/without with_max_level, ignore_crate / ignore_all, "
+                "init, init_with_filter, new) and ignore lists with prefix / exact / extension / case / embedding neighbours. non-trivial = a record whose own "
                 "(target, level) the collector answers differently from (\"log\", level) and that is neither gated nor ignored; distinct "
                 "= distinct (entry, level, target, verdict, filter table). "
                 "b) tracing->log: one process per history (16 event + 9 span macro callsites with arbitrary values, enter/exit/drop/"
                 "record, dangling dispatcher, scoped/global install, uninstall; a malformed stream with ops on Span::none(), wrong-state "
-                "ops, unknown fields, double installs), run against `log` and `log-always` builds. non-trivial = every emitting or "
-                "silenced step; distinct = distinct (feature, op kind, callsite, phase, span enabled)")
+                "ops, unknown fields, double installs; events, installs, guard drops and has_been_set() observations on three worker "
+                "threads; a worker stopped at yield point 70/71/72 inside set_global_default while the main thread emits an event; "
+                "follows_from), run against `log` and `log-always` builds. non-trivial = every emitting or "
+                "silenced step; distinct = distinct (feature, op kind, callsite, phase, span enabled, thread, installed by this thread)")
     rep.trusted_base = [
         "Coq 8.16.1 kernel + vm_compute (no native_compute)",
         "translators/logbridge.py + levels.py + rsparse.py (shape recognition; fail closed via gen_lb_unrecognised = [])",
@@ -812,7 +1029,8 @@ def run(ctx):
         "the current collector's `enabled` is a function of (target, level) (a filter over level x target, as in the property); it answers the same both times it is asked",
         "LevelFilter::current() is the maximum hint over live dispatchers (C01/C19's subject; cross-checked against the harness on every configuration)",
         "for a collector whose max_level_hint is below what its own `enabled` accepts the oracle demands nothing (the level gate drops such records); the model/theorem state the gate explicitly",
-        "log::STATIC_MAX_LEVEL = Trace (no max_level_* cargo feature of `log`), one thread",
+        "log::STATIC_MAX_LEVEL = Trace (no max_level_* cargo feature of `log`)",
+        "the flag machine is sequentially consistent: every observation in the harness is ordered after the step before it (channels); the Relaxed load of EXISTS is not modelled",
         "whether the tracing side enabled a span, and its id, are inputs of the model (taken from the run); field values are represented by their std renderings",
         "record line numbers fit u32 (log's type)"]
     # ---- leg B1: translators
@@ -849,7 +1067,7 @@ def run(ctx):
                 if f.endswith(".case"):
                     t = vlib.read(os.path.join(cdir, f))
                     (cases_a if f.startswith("a") else cases_b).append((parse_case_a if f.startswith("a") else parse_case_b)(t, "corpus-" + f[:-5]))
-        n_a, n_rec, n_b, n_ops = (120, 32, 120, 30) if not ctx.thorough() else (600, 40, 600, 40)
+        n_a, n_rec, n_b, n_ops = (150, 32, 150, 30) if not ctx.thorough() else (600, 40, 600, 40)
         for i in range(n_a):
             cases_a.append(gen_cfg_a(rng, i, n_rec))
         for i in range(n_b):
@@ -874,17 +1092,35 @@ def run(ctx):
             rep.violation("h_logbridge failed on configuration %s (rc=%s)" % (c["id"], im["rc"]),
                           {"part": "a", "case_id": c["id"], "case_file": texts_a[c["id"]], "raw": im["raw"][-1500:]})
             continue
-        if im["current"] != predicted_current(c) or im.get("end_current") != im["current"] or im["log_max"] != c["logmax"]:
+        if im["current"] != predicted_current(c) or im.get("end_current") != im["current"] or im["log_max"] != effective_logmax(c):
             cur_bad.append({"case": c["id"], "current": im["current"], "predicted": predicted_current(c), "log_max": im["log_max"]})
         rep.count("a:mode-" + c["mode"])
         rep.count("a:hint-" + ("none" if c["hint"] < 0 else LVU[c["hint"]]))
         rep.count("a:ignore-%d" % len(c["ignore"]))
         oracle_a(rep, c, im, texts_a[c["id"]])
-        t, ri, fi = model_terms_a(c, im)
+        t, ri, fi, ei = model_terms_a(c, im)
         terms += t
-        index_a[c["id"]] = (ri, fi)
+        index_a[c["id"]] = (ri, fi, ei)
+        rep.count("a:init-" + c.get("init", "builder"))
     ctx.log("part a: %d configurations run" % len(cases_a))
     rep.tie("a:LevelFilter::current()-as-assumed", not cur_bad, "%d configurations" % len(cur_bad), cur_bad[:1] or None)
+    # the level conversions through the public AsTrace / AsLog impls: bijections that preserve the order (oracle), and the
+    # generated tables of the model (correspondence, below)
+    conv_seen = {}
+    for c in cases_a:
+        im = impl_a[c["id"]]
+        if im.get("conv") and im["conv"] not in conv_seen.values():
+            conv_seen[c["id"]] = im["conv"]
+    for cid, cv in conv_seen.items():
+        want = ([1, 2, 3, 4, 5], [1, 2, 3, 4, 5], [0, 1, 2, 3, 4, 5], [0, 1, 2, 3, 4, 5])
+        rep.evaluations += 22
+        if tuple(cv) != want:
+            rep.violation("level conversion is not the order-preserving bijection: log->tracing levels %r, tracing->log levels %r, log->tracing filters %r, "
+                          "tracing->log filters %r (ERROR=1..TRACE=5, OFF=0)" % tuple(cv), {"part": "a", "case_id": cid, "case_file": texts_a[cid], "conversions": cv})
+    terms.append(("conv", "(map (fun l => option_map rank_lv (as_trace_level l)) [Error; Warn; Info; Debug; Trace], "
+                          "map (fun l => option_map rank_lv (as_log_level l)) [Error; Warn; Info; Debug; Trace], "
+                          "map (fun f => option_map (fun g => rank (VF g)) (as_trace_filter f)) [None; Some Error; Some Warn; Some Info; Some Debug; Some Trace], "
+                          "map (fun f => option_map (fun g => rank (VF g)) (as_log_filter f)) [None; Some Error; Some Warn; Some Info; Some Debug; Some Trace])"))
 
     # ---- part b: implementation (both feature builds)
     texts_b = {}
@@ -909,14 +1145,15 @@ def run(ctx):
                 continue
             if im["static_max"] != 5:
                 rep.tie("b:STATIC_MAX_LEVEL", False, "log::STATIC_MAX_LEVEL = %s" % im["static_max"])
-            mops = process_case_b(rep, c, im, texts_b[c["id"]], always, disagree_b, table_bad)
-            if mops is None:
+            pr = process_case_b(rep, c, im, texts_b[c["id"]], always, disagree_b, table_bad)
+            if pr is None:
                 continue
+            mops, ranges, spec_exists = pr
             cfg = "(mkCfg %s (Some Trace) %s (table_filter %s %s))" % ("true" if always else "false", colv(c["logmax"]),
                                                                       crules(c["logger"][1]), colv(c["logger"][0]))
             key = "%s:%s" % (b, c["id"])
-            terms.append((key, "enc_run (run %s false [%s])" % (cfg, "; ".join(t for _, t in mops))))
-            index_b[key] = [i for i, _ in mops]
+            terms.append((key, "enc_mrun %s [%s]" % (cfg, "; ".join(mops))))
+            index_b[key] = (ranges, spec_exists)
     ctx.log("part b: %d histories x 2 feature builds run" % len(cases_b))
     rep.tie("b:callsite-table-and-slot-tracking", not table_bad, "%d mismatches between driver tables and the harness" % len(table_bad), table_bad[:1] or None)
 
@@ -936,8 +1173,45 @@ def run(ctx):
         for c in cases_a:
             if c["id"] not in index_a:
                 continue
-            ri, fi = index_a[c["id"]]
+            ri, fi, ei = index_a[c["id"]]
             im = impl_a[c["id"]]
+            mlm = som(model[c["id"] + ":logmax"])
+            n_a_cmp += 1
+            if mlm != im["log_max"]:
+                dis_a.append({"case": c["id"], "what": "log::max_level() after the logger is installed", "impl": im["log_max"], "model": mlm, "init": c.get("init")})
+            if c["id"] + ":entries" in model:
+                m_enq, m_cvm, m_cvr, m_cvl = model[c["id"] + ":entries"]
+                for idx, me in zip(ei["enq"], m_enq):
+                    n_a_cmp += 1
+                    me = som(me)
+                    io = im["items"][idx]
+                    impl_obs = [canon_impl_obs_a(z) for z in io["obs"]]
+                    if me is None:
+                        dis_a.append({"case": c["id"], "item": idx, "model": "stuck"})
+                        continue
+                    mans, mobs = bool(me[0]), [canon_model_obs_a(z) for z in me[1]]
+                    if c["mode"] == "none":
+                        mobs = []
+                    if (mans, mobs) != (bool(io.get("ans")), impl_obs):
+                        dis_a.append({"case": c["id"], "item": idx, "what": "Log::enabled", "impl": (io.get("ans"), impl_obs), "model": (mans, mobs)})
+                for kind, ml in (("cvm", m_cvm), ("cvr", m_cvr)):
+                    for idx, me in zip(ei[kind], ml):
+                        n_a_cmp += 1
+                        me = som(me)
+                        cv = im["items"][idx].get("conv")
+                        iv = None if cv is None else ("en", hexs(cv["name"]), hexs(cv["target"]), cv["level"], hexs(cv["file"]), cv["line"], hexs(cv["module"]),
+                                                      cv["cs"] if cv["cs"] >= 0 else None)
+                        mv = None if me is None else canon_model_obs_a((0, ("Some", me), None))
+                        if iv != mv or iv is None:
+                            dis_a.append({"case": c["id"], "item": idx, "what": kind, "impl": iv, "model": mv})
+                for idx, me in zip(ei["cvl"], m_cvl):
+                    n_a_cmp += 1
+                    me = som(me)
+                    al = im["items"][idx].get("aslog")
+                    iv = None if al is None else (al[0], hexs(al[1]))
+                    mv = None if me is None else (me[0], unb(me[1]))
+                    if iv != mv or iv is None:
+                        dis_a.append({"case": c["id"], "item": idx, "what": "cvl", "impl": iv, "model": mv})
             mres = model[c["id"] + ":recs"]
             for idx, mo in zip(ri, mres):
                 n_a_cmp += 1
@@ -960,6 +1234,11 @@ def run(ctx):
                     mev = canon_model_event(me)
                     if impl_obs != [mev]:
                         dis_a.append({"case": c["id"], "item": idx, "impl": impl_obs, "model": [mev]})
+        mconv = tuple([som(z) for z in col] for col in model["conv"])
+        for cid, cv in conv_seen.items():
+            n_a_cmp += 22
+            if tuple(list(z) for z in cv) != mconv:
+                dis_a.append({"case": cid, "what": "level conversion tables", "impl": cv, "model": mconv})
         rep.tie("correspondence:a(log->tracing)", not dis_a, "%d disagreements over %d records" % (len(dis_a), n_a_cmp), dis_a[:1] or None)
         rep.traces_validated += n_a_cmp
         dis_b = []
@@ -969,20 +1248,30 @@ def run(ctx):
                 key = "%s:%s" % (b, c["id"])
                 if key not in index_b:
                     continue
-                exf, outs = model[key]
+                ranges, spec_exists = index_b[key]
+                (_r_exists, _r_ginit, _r_scount, _hbs, m_installed, outs, flags) = model[key]   # left-nested tuples print flat
                 im = impls[c["id"]]
-                modelled = dict(zip(index_b[key], outs))
-                last_exists = False
+                flag = False
                 for i in range(len(c["ops"])):
                     r = im["ops"][i]
                     n_b_cmp += 1
                     impl_recs = [canon_rec(z) for z in r["recs"]]
-                    mrecs = [canon_model_lrec(z) for z in modelled.get(i, [])]
+                    mrecs = []
+                    if i in ranges:
+                        a, e, mid = ranges[i]
+                        mrecs = [canon_model_lrec(z) for o_ in outs[a:e] for z in o_]
+                        if e > a:
+                            flag = bool(flags[e - 1])
+                        if mid is not None and r.get("exists_mid") is not None and bool(flags[mid]) != r["exists_mid"]:
+                            dis_b.append({"case": c["id"], "bin": b, "op": i, "what": "has_been_set() inside the set_global_default window",
+                                          "impl": r["exists_mid"], "model": bool(flags[mid])})
                     if impl_recs != mrecs:
                         dis_b.append({"case": c["id"], "bin": b, "op": i, "what": c["ops"][i][0], "impl": impl_recs, "model": mrecs})
-                    last_exists = r["exists"]
-                if bool(exf) != bool(last_exists) and c["ops"]:
-                    dis_b.append({"case": c["id"], "bin": b, "exists": last_exists, "model": exf})
+                    for k_ in ("exists", "exists_t"):
+                        if r.get(k_) is not None and r[k_] != flag:
+                            dis_b.append({"case": c["id"], "bin": b, "op": i, "what": "has_been_set() (%s)" % k_, "impl": r[k_], "model": flag})
+                if bool(m_installed) != bool(spec_exists):
+                    dis_b.append({"case": c["id"], "bin": b, "what": "an install has returned (ghost)", "driver": spec_exists, "model": m_installed})
         rep.tie("correspondence:b(tracing->log)", not dis_b, "%d disagreements over %d steps" % (len(dis_b), n_b_cmp), dis_b[:1] or None)
         rep.traces_validated += n_b_cmp
     # ---- thorough: the same cases on release builds; observations must equal the debug ones (then the oracle and
